@@ -149,29 +149,6 @@ pub open spec fn decode_opt(s: Seq<u8>) -> Option<Seq<u8>> {
 pub open spec fn valid_container(s: Seq<u8>) -> bool { decode_opt(s) is Some }
 pub open spec fn decode(s: Seq<u8>) -> Seq<u8> { decode_opt(s).unwrap() }
 
-/// bit index reached when the token stream [p, e) is exhausted (8 = the last FlagByte had all of its 8 tokens)
-#[verifier::opaque]
-pub open spec fn end_k(s: Seq<u8>, p: int, e: int, flags: u8, k: int) -> int
-    decreases e - p
-{
-    if p >= e { k }
-    else if k >= 8 { end_k(s, p + 1, e, s[p], 0) }
-    else if !flag_bit(flags, k) { end_k(s, p + 1, e, flags, k + 1) }
-    else if p + 2 > e { k + 1 }
-    else { end_k(s, p + 2, e, flags, k + 1) }
-}
-/// no compressed chunk that is followed by another chunk ends on a full group of 8 tokens
-#[verifier::opaque]
-pub open spec fn no_full_group_boundary(s: Seq<u8>, i: int) -> bool
-    decreases s.len() - i
-{
-    if i + 2 > s.len() { true } else {
-        let h = u16_at(s, i);
-        let e = i + hdr_size(h) + 3;
-        if e >= s.len() { true } else { (hdr_compressed(h) ==> end_k(s, i + 2, e, 0, 8) != 8) && no_full_group_boundary(s, e) }
-    }
-}
-
 proof fn lemma_copy_small(out: Seq<u8>, off: int, n: int)
     requires 0 <= n <= off <= out.len(),
     ensures copy_bytes(out, off, n) == out + out.subrange(out.len() - off, out.len() - off + n),
@@ -244,12 +221,12 @@ proof fn lemma_chunks_end(s: Seq<u8>, i: int, out: Seq<u8>)
     reveal(dec_chunks);
 }
 
-// ---- single steps of dec_toks / end_k (the functions are opaque in the body of decompress_stream; every step is an explicit lemma call)
+// ---- single steps of dec_toks (the function is opaque in the body of decompress_stream; every step is an explicit lemma call)
 proof fn lemma_toks_end(s: Seq<u8>, p: int, e: int, f: u8, k: int, out: Seq<u8>, start: int)
     requires p >= e,
-    ensures dec_toks(s, p, e, f, k, out, start) == (if p == e { Some(out) } else { None::<Seq<u8>> }), end_k(s, p, e, f, k) == k,
+    ensures dec_toks(s, p, e, f, k, out, start) == (if p == e { Some(out) } else { None::<Seq<u8>> }),
 {
-    reveal(dec_toks); reveal(end_k);
+    reveal(dec_toks);
 }
 proof fn lemma_toks_some(s: Seq<u8>, p: int, e: int, f: u8, k: int, out: Seq<u8>, start: int)
     requires dec_toks(s, p, e, f, k, out, start) is Some,
@@ -259,22 +236,21 @@ proof fn lemma_toks_some(s: Seq<u8>, p: int, e: int, f: u8, k: int, out: Seq<u8>
 }
 proof fn lemma_toks_flag(s: Seq<u8>, p: int, e: int, f: u8, out: Seq<u8>, start: int)
     requires p < e,
-    ensures dec_toks(s, p, e, f, 8, out, start) == dec_toks(s, p + 1, e, s[p], 0, out, start), end_k(s, p, e, f, 8) == end_k(s, p + 1, e, s[p], 0),
+    ensures dec_toks(s, p, e, f, 8, out, start) == dec_toks(s, p + 1, e, s[p], 0, out, start),
 {
-    reveal(dec_toks); reveal(end_k);
+    reveal(dec_toks);
 }
 /// with k == 8 the old FlagByte is irrelevant
 proof fn lemma_toks_k8(s: Seq<u8>, p: int, e: int, f1: u8, f2: u8, out: Seq<u8>, start: int)
-    ensures dec_toks(s, p, e, f1, 8, out, start) == dec_toks(s, p, e, f2, 8, out, start), end_k(s, p, e, f1, 8) == end_k(s, p, e, f2, 8),
+    ensures dec_toks(s, p, e, f1, 8, out, start) == dec_toks(s, p, e, f2, 8, out, start),
 {
-    reveal(dec_toks); reveal(end_k);
+    reveal(dec_toks);
 }
 proof fn lemma_toks_literal(s: Seq<u8>, p: int, e: int, f: u8, k: int, out: Seq<u8>, start: int)
     requires p < e, 0 <= k < 8, !flag_bit(f, k),
     ensures dec_toks(s, p, e, f, k, out, start) == dec_toks(s, p + 1, e, f, k + 1, out.push(s[p]), start),
-        end_k(s, p, e, f, k) == end_k(s, p + 1, e, f, k + 1),
 {
-    reveal(dec_toks); reveal(end_k);
+    reveal(dec_toks);
 }
 proof fn lemma_toks_copy(s: Seq<u8>, p: int, e: int, f: u8, k: int, out: Seq<u8>, start: int)
     requires p < e, 0 <= k < 8, flag_bit(f, k), dec_toks(s, p, e, f, k, out, start) is Some,
@@ -283,14 +259,13 @@ proof fn lemma_toks_copy(s: Seq<u8>, p: int, e: int, f: u8, k: int, out: Seq<u8>
         tok_off(u16_at(s, p), copy_bit_count(out.len() - start)) <= out.len() - start,
         dec_toks(s, p, e, f, k, out, start) == dec_toks(s, p + 2, e, f, k + 1,
             copy_bytes(out, tok_off(u16_at(s, p), copy_bit_count(out.len() - start)), tok_len(u16_at(s, p), copy_bit_count(out.len() - start))), start),
-        end_k(s, p, e, f, k) == end_k(s, p + 2, e, f, k + 1),
 {
-    reveal(dec_toks); reveal(end_k);
+    reveal(dec_toks);
 }
 /// FlagByte as far as the invariant of the token loop is concerned: irrelevant once all 8 bits are used
 pub open spec fn fl(f: u8, k: int) -> u8 { if k >= 8 { 0u8 } else { f } }
 
-/// one unfolding of dec_chunks / no_full_group_boundary at a chunk boundary i < |s| of a valid container
+/// one unfolding of dec_chunks at a chunk boundary i < |s| of a valid container
 proof fn lemma_chunk_unfold(s: Seq<u8>, i: int, out: Seq<u8>)
     requires dec_chunks(s, i, out) is Some, i < s.len(),
     ensures
@@ -304,17 +279,8 @@ proof fn lemma_chunk_unfold(s: Seq<u8>, i: int, out: Seq<u8>)
             let t = dec_toks(s, i + 2, e, 0, 8, out, out.len() as int);
             t is Some && t.unwrap().len() - out.len() <= 4096 && dec_chunks(s, i, out) == dec_chunks(s, e, t.unwrap())
         }),
-        no_full_group_boundary(s, i) ==> ({
-            let e = i + hdr_size(u16_at(s, i)) + 3;
-            no_full_group_boundary(s, e) && (e < s.len() && hdr_compressed(u16_at(s, i)) ==> end_k(s, i + 2, e, 0, 8) != 8)
-        }),
 {
     reveal(dec_chunks);
-    reveal(no_full_group_boundary);
-    let e = i + hdr_size(u16_at(s, i)) + 3;
-    if no_full_group_boundary(s, i) && e >= s.len() {
-        assert(no_full_group_boundary(s, e));
-    }
 }
 
 // ---- witnesses: the specification on concrete containers (guards against a vacuous or mis-stated `decode`)
@@ -334,11 +300,10 @@ proof fn lemma_copy3(o: Seq<u8>, off: int)
     reveal_with_fuel(copy_bytes, 4);
 }
 
-/// one chunk, literal 'A' then CopyToken 0x0000 (offset 1, length 3, overlapping): "AAAA"; satisfies both antecedents of the proved clause
+/// one chunk, literal 'A' then CopyToken 0x0000 (offset 1, length 3, overlapping): "AAAA"
 proof fn witness_decode_literal_and_copy()
     ensures
         valid_container(seq![1u8, 0x03, 0xB0, 0x02, 0x41, 0x00, 0x00]),
-        no_full_group_boundary(seq![1u8, 0x03, 0xB0, 0x02, 0x41, 0x00, 0x00], 1),
         decode(seq![1u8, 0x03, 0xB0, 0x02, 0x41, 0x00, 0x00]) == seq![0x41u8, 0x41, 0x41, 0x41],
 {
     let s = seq![1u8, 0x03, 0xB0, 0x02, 0x41, 0x00, 0x00];
@@ -362,15 +327,13 @@ proof fn witness_decode_literal_and_copy()
     lemma_chunk_fold_compressed(s, 1, em, o4);
     lemma_chunks_end(s, 7, o4);
     assert(dec_chunks(s, 1, em) == Some(o4));
-    assert(no_full_group_boundary(s, 1)) by { reveal(no_full_group_boundary); }
 }
 
-/// the container of the C18 finding: chunk 1 = one full group of 8 literal tokens 'A'..'H', chunk 2 = literal 'I'.
-/// The specification says "ABCDEFGHI"; the container is valid but does NOT satisfy no_full_group_boundary.
+/// two chunks: chunk 1 = one full group of 8 literal tokens 'A'..'H', chunk 2 = literal 'I' (the container of the fixed C18 defect):
+/// the specification says "ABCDEFGHI"
 proof fn witness_full_group_container()
     ensures
         valid_container(seq![1u8, 0x08, 0xB0, 0x00, 0x41, 0x42, 0x43, 0x44, 0x45, 0x46, 0x47, 0x48, 0x01, 0xB0, 0x00, 0x49]),
-        !no_full_group_boundary(seq![1u8, 0x08, 0xB0, 0x00, 0x41, 0x42, 0x43, 0x44, 0x45, 0x46, 0x47, 0x48, 0x01, 0xB0, 0x00, 0x49], 1),
         decode(seq![1u8, 0x08, 0xB0, 0x00, 0x41, 0x42, 0x43, 0x44, 0x45, 0x46, 0x47, 0x48, 0x01, 0xB0, 0x00, 0x49])
             == seq![0x41u8, 0x42, 0x43, 0x44, 0x45, 0x46, 0x47, 0x48, 0x49],
 {
@@ -397,7 +360,6 @@ proof fn witness_full_group_container()
     lemma_toks_literal(s, 11, 12, 0u8, 7, o7, 0);
     lemma_toks_end(s, 12, 12, 0u8, 8, o8, 0);
     assert(dec_toks(s, 3, 12, 0u8, 8, em, 0) == Some(o8));
-    assert(end_k(s, 3, 12, 0u8, 8) == 8);
     // chunk 2: data [14, 16)
     lemma_toks_flag(s, 14, 16, 0u8, o8, 8);
     lemma_toks_literal(s, 15, 16, 0u8, 0, o8, 8);
@@ -408,13 +370,11 @@ proof fn witness_full_group_container()
     lemma_chunk_fold_compressed(s, 1, em, o8);
     assert(dec_chunks(s, 1, em) == Some(o9));
     assert(o9 =~= seq![0x41u8, 0x42, 0x43, 0x44, 0x45, 0x46, 0x47, 0x48, 0x49]);
-    assert(!no_full_group_boundary(s, 1)) by { reveal(no_full_group_boundary); }
 }
 
 /// what the validity of the container says about the compressed chunk at cs (ghost constants of one outer iteration)
-pub open spec fn chunk_facts(sq: Seq<u8>, cs: int, e: int, full: Option<Seq<u8>>, tgt: Option<Seq<u8>>, ek: int, base_len: int) -> bool {
-    tgt is Some && full == dec_chunks(sq, e, tgt.unwrap()) && cs + 3 <= e <= sq.len() && no_full_group_boundary(sq, e)
-        && (e < sq.len() ==> ek != 8) && tgt.unwrap().len() - base_len <= 4096
+pub open spec fn chunk_facts(sq: Seq<u8>, cs: int, e: int, full: Option<Seq<u8>>, tgt: Option<Seq<u8>>, base_len: int) -> bool {
+    tgt is Some && full == dec_chunks(sq, e, tgt.unwrap()) && cs + 3 <= e <= sq.len() && tgt.unwrap().len() - base_len <= 4096
 }
 
 //@@ fn src/cfb.rs decompress_stream props=C18 entry ret=r
@@ -422,8 +382,6 @@ pub open spec fn chunk_facts(sq: Seq<u8>, cs: int, e: int, full: Option<Seq<u8>>
     ensures
         //# C18.decode
         valid_container(s@) ==> (r matches Ok(v) && v@ == decode(s@)),
-        //# C18.decode_unless_full_group_boundary
-        valid_container(s@) && no_full_group_boundary(s@, 1) ==> (r matches Ok(v) && v@ == decode(s@)),
         //# C18.bad_container_signature_rejected
         s@.len() >= 1 && s@[0] != 1 ==> r is Err,
 //@@ body
@@ -442,11 +400,12 @@ pub open spec fn chunk_facts(sq: Seq<u8>, cs: int, e: int, full: Option<Seq<u8>>
 //@@ before /let mut i = 1/
     let ghost sq = s@;
     let ghost full = dec_chunks(sq, 1, Seq::<u8>::empty());
-    let ghost ok = full is Some && no_full_group_boundary(sq, 1);
+    let ghost ok = full is Some;
     proof { assert(res@ =~= Seq::<u8>::empty()); }
 //@@ loop 0
         invariant 1 <= i, s@.len() <= isize::MAX, is_p2_table(POWER_2), sq == s@,
-            ok ==> (full is Some && full == dec_chunks(sq, i as int, res@) && no_full_group_boundary(sq, i as int)),
+            valid_container(s@) ==> ok,
+            ok ==> (full is Some && full == dec_chunks(sq, i as int, res@)),
         decreases (if i < s@.len() { s@.len() - i } else { 0 }),
 //@@ before /let chunk_header = /
         let ghost res_top = res@;
@@ -455,7 +414,6 @@ pub open spec fn chunk_facts(sq: Seq<u8>, cs: int, e: int, full: Option<Seq<u8>>
         let ghost e = cs + (chunk_size as int) + 3;
         let ghost base = res@;
         let ghost tgt = dec_toks(sq, cs + 2, e, 0u8, 8, base, start as int);
-        let ghost ek = end_k(sq, cs + 2, e, 0u8, 8);
         proof {
             assert(chunk_header & 0x0FFF == chunk_header % 4096) by (bit_vector);
             assert((chunk_header & 0x7000) >> 12 == (chunk_header / 4096) % 8) by (bit_vector);
@@ -467,7 +425,7 @@ pub open spec fn chunk_facts(sq: Seq<u8>, cs: int, e: int, full: Option<Seq<u8>>
                 assert(chunk_header as int == u16_at(sq, cs));
                 if chunk_flag != 0 {
                     assert(hdr_compressed(chunk_header as int));
-                    assert(chunk_facts(sq, cs, e, full, tgt, ek, start as int));
+                    assert(chunk_facts(sq, cs, e, full, tgt, start as int));
                 } else {
                     assert(!hdr_compressed(chunk_header as int));
                     assert(e == cs + 4098);
@@ -486,14 +444,14 @@ pub open spec fn chunk_facts(sq: Seq<u8>, cs: int, e: int, full: Option<Seq<u8>>
                 invariant_except_break
                     chunk_len <= chunk_size + 2,
                     res@.len() - start <= 8194 + 5 * chunk_len,
-                    ok ==> (tgt == dec_toks(sq, i as int, e, 0u8, 8, res@, start as int) && ek == end_k(sq, i as int, e, 0u8, 8)),
+                    ok ==> tgt == dec_toks(sq, i as int, e, 0u8, 8, res@, start as int),
                 invariant
                     1 <= i, i_chunk <= i, s@.len() <= isize::MAX, is_p2_table(POWER_2), chunk_size <= 4095, start <= res@.len(), sq == s@,
                     chunk_len == i - (cs + 2), e == cs + chunk_size + 3,
-                    ok ==> chunk_facts(sq, cs, e, full, tgt, ek, start as int),
+                    ok ==> chunk_facts(sq, cs, e, full, tgt, start as int),
                     ok ==> full is Some,
                 ensures
-                    ok ==> (full is Some && full == dec_chunks(sq, i as int, res@) && no_full_group_boundary(sq, i as int)),
+                    ok ==> (full is Some && full == dec_chunks(sq, i as int, res@)),
                 decreases (if i < s@.len() { s@.len() - i } else { 0 }),
 //@@ loop 2 it
                     invariant
@@ -503,10 +461,9 @@ pub open spec fn chunk_facts(sq: Seq<u8>, cs: int, e: int, full: Option<Seq<u8>>
                         res@.len() - start <= 8194 + 5 * chunk_len,
                         it.seq().len() == 8, forall|k: int| 0 <= k < 8 ==> it.seq()[k] == k,
                         chunk_len == i - (cs + 2), e == cs + chunk_size + 3,
-                        ok ==> chunk_facts(sq, cs, e, full, tgt, ek, start as int),
+                        ok ==> chunk_facts(sq, cs, e, full, tgt, start as int),
                         ok ==> full is Some,
-                        ok ==> (tgt == dec_toks(sq, i as int, e, fl(bit_flags, it.index@ as int), it.index@ as int, res@, start as int)
-                            && ek == end_k(sq, i as int, e, fl(bit_flags, it.index@ as int), it.index@ as int)),
+                        ok ==> tgt == dec_toks(sq, i as int, e, fl(bit_flags, it.index@ as int), it.index@ as int, res@, start as int),
 //@@ before /break;/
                     proof { if ok {
                         lemma_toks_some(sq, i as int, e, 0u8, 8, res@, start as int);
@@ -522,12 +479,8 @@ pub open spec fn chunk_facts(sq: Seq<u8>, cs: int, e: int, full: Option<Seq<u8>>
 //@@ after /chunk_len \+= 1;/#0of2
                 proof {
                     if ok {
-                        // the chunk's data is not exhausted here: a next FlagByte is really due
-                        lemma_toks_some(sq, i_top as int, e, 0u8, 8, res@, start as int);
-                        if i_top == e {
-                            lemma_toks_end(sq, i_top as int, e, 0u8, 8, res@, start as int);
-                            assert(false);
-                        }
+                        // `chunk_len <= chunk_size` was just tested: the chunk's data is not exhausted, a next FlagByte is really due
+                        assert(i_top < e);
                         lemma_toks_flag(sq, i_top as int, e, 0u8, res@, start as int);
                     }
                 }
